@@ -737,11 +737,14 @@ func (h *History) Fingerprint() string {
 	for _, n := range h.Notifs {
 		w("notif %d %s %s %v\n", n.At, n.Method, n.URL, n.RGs)
 	}
+	// the goroutine count is process-wide and carries +-1 of real-time noise from outside the
+	// bubble (test-runner goroutines finishing); the fingerprint records it in steps of 8,
+	// far below the slack of the C18 bound
 	goDelta := 0
 	if h.Scenario.Cfg.SettleNs > 0 {
-		goDelta = h.Goroutines - h.GoBase // only meaningful (and quiescent) after the settle phase
+		goDelta = (h.Goroutines - h.GoBase + 4) / 8
 	}
-	w("census %+v go=%d end=%d aborted=%v\n", h.Census, goDelta, h.SimEndNs, h.Aborted)
+	w("census %+v go~%d end=%d aborted=%v\n", h.Census, goDelta, h.SimEndNs, h.Aborted)
 	return hex.EncodeToString(hs.Sum(nil)[:12])
 }
 
